@@ -143,6 +143,58 @@ func c01One(key, nonce, pt, ad, want []byte, sd, od dstSpec, srcOff int) error {
 	return nil
 }
 
+// c01InPlace checks the documented storage reuse on the currently selected
+// path: Seal(rec[:p], nonce, rec[p:p+n], ad) (plaintext[:0] when p == 0) and,
+// in the same buffer, Open(rec[:p], nonce, rec[p:p+n+16], ad).  roomy selects
+// whether rec has capacity for the tag (otherwise Seal must reallocate).
+func c01InPlace(key, nonce, pt, ad, want, prefix []byte, roomy bool, off int) error {
+	a := newAEAD(key, len(nonce))
+	p, n := len(prefix), len(pt)
+	capn := p + n
+	if roomy {
+		capn = p + n + 16 + off%5
+	}
+	rec, chk := placed(off, p+n, capn)
+	copy(rec, prefix)
+	copy(rec[p:], pt)
+	adb := clone(ad)
+	var sealed []byte
+	if err := catch(func() { sealed = a.Seal(rec[:p], nonce, rec[p:p+n], adb) }); err != nil {
+		return fmt.Errorf("in-place Seal(buf[:%d], nonce, buf[%d:%d]): %v", p, p, p+n, err)
+	}
+	if len(sealed) != p+len(want) || !bytes.Equal(sealed[:p], prefix) || !bytes.Equal(sealed[p:], want) {
+		i := 0
+		for i < len(sealed) && i < p+len(want) && ((i < p && sealed[i] == prefix[i]) || (i >= p && sealed[i] == want[i-p])) {
+			i++
+		}
+		return fmt.Errorf("in-place Seal(buf[:%d], nonce, buf[%d:%d]) (cap(buf)=%d) returned %d bytes that differ from dst||RFC 8439 value at byte %d", p, p, p+n, capn, len(sealed), i)
+	}
+	if !bytes.Equal(adb, ad) {
+		return fmt.Errorf("in-place Seal modified the additional data")
+	}
+	if err := chk(); err != nil {
+		return fmt.Errorf("in-place Seal wrote out of bounds: %v", err)
+	}
+	// Open in the buffer Seal returned (stale bytes everywhere, storage reused across calls)
+	var opened []byte
+	var oerr error
+	if err := catch(func() { opened, oerr = a.Open(sealed[:p], nonce, sealed[p:], adb) }); err != nil {
+		return fmt.Errorf("in-place Open(buf[:%d], nonce, buf[%d:%d]): %v", p, p, len(sealed), err)
+	}
+	if oerr != nil {
+		return fmt.Errorf("in-place Open(buf[:%d], nonce, buf[%d:%d]) of the RFC 8439 ciphertext failed: %v", p, p, p+len(want), oerr)
+	}
+	if len(opened) != p+n || !bytes.Equal(opened[:p], prefix) || !bytes.Equal(opened[p:], pt) {
+		return fmt.Errorf("in-place Open(buf[:%d], nonce, buf[%d:%d]) returned %s (len %d), want dst||plaintext", p, p, p+len(want), ev.Hex(opened), len(opened))
+	}
+	if roomy {
+		if err := chk(); err != nil {
+			return fmt.Errorf("in-place Open wrote out of bounds: %v", err)
+		}
+	}
+	return nil
+}
+
 // pat is a deterministic byte pattern for the enumerated part (no RNG).
 func pat(seed uint64, n int) []byte {
 	out := make([]byte, n)
@@ -157,7 +209,7 @@ func pat(seed uint64, n int) []byte {
 }
 
 func TestC01(t *testing.T) {
-	c := ev.New("C01", "non-trivial: plaintext longer than one 64-byte block, or additional data non-empty, or dst non-empty; distinct = (path, nonce size, |pt|, |ad|, |dst|, Seal cap class, Open cap class)")
+	c := ev.New("C01", "non-trivial: plaintext longer than one 64-byte block, or additional data non-empty, or dst non-empty; distinct = (path, nonce size, |pt|, |ad|, |dst|, Seal cap class, Open cap class); every case is sealed and opened with separate buffers AND in place (dst = plaintext[:0] / buf[:k] with the input at buf[k:])")
 	defer c.Flush(t)
 	c.Oracle("refaead.Seal: RFC 8439 2.8 / draft-irtf-cfrg-xchacha-01 from an independent block function and math/big Poly1305 (KAT-checked)")
 	if err := refaead.SelfTest(); err != nil {
@@ -194,17 +246,30 @@ func TestC01(t *testing.T) {
 		sd := genDst(rt, "sdst", n+16)
 		od := genDst(rt, "odst", n)
 		srcOff := rapid.IntRange(0, 31).Draw(rt, "srcOff")
+		var ipPrefix []byte
+		ipClass := "inplace:dst=pt[:0]"
+		if rapid.Bool().Draw(rt, "inplacePrefix") {
+			ipPrefix = gen.RandBytes(rt, "inplacePrefixBytes", rapid.IntRange(1, 40).Draw(rt, "inplacePrefixLen"))
+			ipClass = "inplace:dst=buf[:k],pt=buf[k:]"
+		}
+		ipRoomy := rapid.IntRange(0, 3).Draw(rt, "inplaceRoomy") > 0
+		if !ipRoomy {
+			ipClass += "(Seal reallocates)"
+		}
 		want := refaead.Seal(key, nonce, pt, ad)
 		for _, p := range paths {
 			restore := p.use()
 			err := c01One(key, nonce, pt, ad, want, sd, od, srcOff)
+			if err == nil {
+				err = c01InPlace(key, nonce, pt, ad, want, ipPrefix, ipRoomy, srcOff)
+			}
 			restore()
 			if err != nil {
 				rt.Fatalf("VF-VIOLATION: property=C01 path=%s nonce=%d |pt|=%d |ad|=%d |dst|=%d/%d %s/%s: %v (key=%x nonce=%x)", p.name, nonceLen, n, an, len(sd.prefix), len(od.prefix), sd.class(n+16), od.class(n), err, key, nonce)
 			}
 			nontrivial := n > 64 || an > 0 || len(sd.prefix) > 0 || len(od.prefix) > 0
 			k := fmt.Sprintf("%s|%d|%s|%d|%d|%d|%s|%s", p.name, nonceLen, lenBucket(n), an, len(sd.prefix), len(od.prefix), sd.class(n+16), od.class(n))
-			c.Case(nontrivial, k, "path="+p.name, fmt.Sprintf("nonce=%d", nonceLen), lc, ac, kc, fc, "seal:"+sd.class(n+16), "open:"+od.class(n))
+			c.Case(nontrivial, k, "path="+p.name, fmt.Sprintf("nonce=%d", nonceLen), lc, ac, kc, fc, "seal:"+sd.class(n+16), "open:"+od.class(n), ipClass)
 		}
 		if c.WantSample() {
 			c.Sample(map[string]any{"nonce_len": nonceLen, "pt_len": n, "ad_len": an, "seal_dst": fmt.Sprintf("%d+%d", len(sd.prefix), sd.spare), "open_dst": fmt.Sprintf("%d+%d", len(od.prefix), od.spare), "key": ev.Hex(key), "nonce": ev.Hex(nonce), "sealed": ev.Hex(want), "class": lc + " " + ac})
@@ -237,6 +302,12 @@ func TestC01(t *testing.T) {
 			for _, p := range paths {
 				restore := p.use()
 				err := c01One(key, nonce, pt, ad, want, sd, od, (n*5)%32)
+				if err == nil {
+					err = c01InPlace(key, nonce, pt, ad, want, nil, true, n%32)
+				}
+				if err == nil {
+					err = c01InPlace(key, nonce, pt, ad, want, pat(seed+6, 1+n%7), n%4 != 0, (n*3)%32)
+				}
 				restore()
 				if err != nil {
 					what := fmt.Sprintf("path=%s nonce=%d |pt|=%d |ad|=%d (enumerated): %v (key=%x nonce=%x)", p.name, nonceLen, n, an, err, key, nonce)
